@@ -5,7 +5,8 @@
 (* committed operations applied with their Raft index, snapshots that hold *)
 (* REFERENCES to the live partition records and are persisted later,       *)
 (* restart = restore the last persisted snapshot, replay the suffix with   *)
-(* recovered = TRUE, finishedRecovery.                                     *)
+(* recovered = TRUE, finishedRecovery (or, when nothing is replayed,       *)
+(* finishRestore: what Restore added is started all the same).             *)
 (*                                                                         *)
 (*   streams  name -> [tomb, subj, cfg, ts, parts]; subj = NATS subject,   *)
 (*            cfg = id of the stream-level configuration (overrides of     *)
@@ -23,6 +24,9 @@
 (*                          not started yet)]                               *)
 (*            tomb = marked for deletion during replay                     *)
 (*   groups   group id -> group value of GroupOps (or NoGroup)             *)
+(*   grec     group id -> consumerGroup.recovered: added during recovery   *)
+(*            and not started yet (liveness timers of its members are not  *)
+(*            armed, it does not answer as coordinator)                    *)
 (*   lastPub  activity manager: last published Raft index                  *)
 (*   disk     stream name -> (partition id + 1 -> data marker); a marker   *)
 (*            is the index of the CREATE_STREAM under which the data was   *)
@@ -49,8 +53,8 @@
 EXTENDS GroupOps, TLC
 
 CONSTANTS GroupIds
-VARIABLES streams, groups, lastPub, disk, applied, mode, nrep, sref, snap, pre, obs
-vars == <<streams, groups, lastPub, disk, applied, mode, nrep, sref, snap, pre, obs>>
+VARIABLES streams, groups, grec, lastPub, disk, applied, mode, nrep, sref, snap, pre, obs
+vars == <<streams, groups, grec, lastPub, disk, applied, mode, nrep, sref, snap, pre, obs>>
 
 NoRef == [has |-> FALSE]
 NoSnap == [has |-> FALSE]
@@ -88,7 +92,7 @@ WithDirs(d, s, n) ==
   IN Put(d, s, [i \in (DOMAIN old) \cup (1..n) |-> IF i \in DOMAIN old THEN old[i] ELSE 0])
 
 Init ==
-  /\ streams = <<>> /\ groups = [g \in GroupIds |-> NoGroup] /\ lastPub = 0 /\ disk = <<>>
+  /\ streams = <<>> /\ groups = [g \in GroupIds |-> NoGroup] /\ grec = [g \in GroupIds |-> FALSE] /\ lastPub = 0 /\ disk = <<>>
   /\ applied = 0 /\ mode = "live" /\ nrep = 0 /\ sref = NoRef /\ snap = NoSnap
   /\ pre = [streams |-> <<>>, groups |-> [g \in GroupIds |-> NoGroup], disk |-> <<>>]
   /\ obs = [a |-> "Open", err |-> ""]
@@ -98,7 +102,7 @@ Init ==
 (* lastPub, disk, sref) as a record; err # "" = apply returns an error     *)
 (* (Server.Apply would panic) and nothing changes.                          *)
 
-St == [streams |-> streams, groups |-> groups, lastPub |-> lastPub, disk |-> disk, sref |-> sref, err |-> ""]
+St == [streams |-> streams, groups |-> groups, grec |-> grec, lastPub |-> lastPub, disk |-> disk, sref |-> sref, err |-> ""]
 Err(e) == [St EXCEPT !.err = e]
 
 \* a live delete detaches the partition records a pending snapshot refers to
@@ -169,9 +173,9 @@ ApplyLeader(o, e) ==
   ELSE IF e < Part(o.s, o.p).lepoch THEN Err("leader_epoch")
   ELSE [St EXCEPT !.streams[o.s].parts[o.p + 1] = [@ EXCEPT !.leader = o.ldr, !.lepoch = e, !.epoch = e]]
 
-ApplyCreateGroup(o) ==
+ApplyCreateGroup(o, rec) ==
   IF groups[o.g].exists THEN Err("group_exists")
-  ELSE [St EXCEPT !.groups[o.g] = GAddMember(NewGroup(o.coord, 0), o.c, o.S, PC(streams))]
+  ELSE [St EXCEPT !.groups[o.g] = GAddMember(NewGroup(o.coord, 0), o.c, o.S, PC(streams)), !.grec[o.g] = rec]
 
 ApplyJoin(o, e) ==
   IF ~groups[o.g].exists THEN Err("group_not_found")
@@ -183,7 +187,8 @@ ApplyLeave(o, e) ==
   ELSE IF e < groups[o.g].epoch THEN Err("group_epoch")
   ELSE IF o.c \notin Members(groups[o.g]) THEN Err("not_member")
   ELSE LET g1 == [GRemoveMember(groups[o.g], o.c, PC(streams)) EXCEPT !.epoch = e]
-       IN [St EXCEPT !.groups[o.g] = IF Members(g1) = {} THEN NoGroup ELSE g1]
+       IN [St EXCEPT !.groups[o.g] = IF Members(g1) = {} THEN NoGroup ELSE g1,
+                     !.grec[o.g] = IF Members(g1) = {} THEN FALSE ELSE @]
 
 ApplyCoordinator(o, e) ==
   IF ~groups[o.g].exists THEN Err("group_not_found")
@@ -199,7 +204,7 @@ ApplyOp(o, e, rec) ==
     [] o.op = "ShrinkISR" -> ApplyISR(o, e, FALSE)
     [] o.op = "ExpandISR" -> ApplyISR(o, e, TRUE)
     [] o.op = "ChangeLeader" -> ApplyLeader(o, e)
-    [] o.op = "CreateGroup" -> ApplyCreateGroup(o)
+    [] o.op = "CreateGroup" -> ApplyCreateGroup(o, rec)
     [] o.op = "JoinGroup" -> ApplyJoin(o, e)
     [] o.op = "LeaveGroup" -> ApplyLeave(o, e)
     [] o.op = "ChangeCoordinator" -> ApplyCoordinator(o, e)
@@ -221,7 +226,7 @@ Valid(o) ==
     [] o.op = "PublishActivity" -> o.i <= applied
 
 Install(r, a) ==
-  /\ streams' = r.streams /\ groups' = r.groups /\ lastPub' = r.lastPub /\ disk' = r.disk /\ sref' = r.sref
+  /\ streams' = r.streams /\ groups' = r.groups /\ grec' = r.grec /\ lastPub' = r.lastPub /\ disk' = r.disk /\ sref' = r.sref
   /\ obs' = [a |-> a, err |-> r.err]
 
 \* a newly committed operation (index applied + 1, recovered = FALSE)
@@ -251,7 +256,7 @@ DoSnapshot(ord) ==
                             [members |-> [i \in DOMAIN ord[g] |-> [c |-> ord[g][i], S |-> groups[g].subs[ord[g][i]]]],
                              epoch |-> groups[g].epoch, coord |-> groups[g].coord]]]
   /\ obs' = [a |-> "Snapshot", err |-> ""]
-  /\ UNCHANGED <<streams, groups, lastPub, disk, applied, mode, nrep, snap, pre>>
+  /\ UNCHANGED <<streams, groups, grec, lastPub, disk, applied, mode, nrep, snap, pre>>
 
 \* what fsmSnapshot.Persist marshals NOW
 Preview(r) == [s \in r.live \cup DOMAIN r.frozen |->
@@ -262,13 +267,13 @@ DoPersist ==
   /\ snap' = [has |-> TRUE, idx |-> sref.idx, streams |-> Preview(sref), heads |-> sref.heads, groups |-> sref.groups]
   /\ sref' = NoRef
   /\ obs' = [a |-> "Persist", err |-> ""]
-  /\ UNCHANGED <<streams, groups, lastPub, disk, applied, mode, nrep, pre>>
+  /\ UNCHANGED <<streams, groups, grec, lastPub, disk, applied, mode, nrep, pre>>
 
 \* the process stops and a new Server is created over the same data directory
 DoRestart ==
   /\ mode = "live"
   /\ pre' = [streams |-> streams, groups |-> groups, disk |-> disk]
-  /\ streams' = <<>> /\ groups' = [g \in GroupIds |-> NoGroup] /\ lastPub' = 0
+  /\ streams' = <<>> /\ groups' = [g \in GroupIds |-> NoGroup] /\ grec' = [g \in GroupIds |-> FALSE] /\ lastPub' = 0
   /\ applied' = 0 /\ nrep' = 0 /\ sref' = NoRef
   /\ mode' = IF snap.has THEN "boot" ELSE "replay"
   /\ obs' = [a |-> "Restart", err |-> ""]
@@ -277,24 +282,33 @@ DoRestart ==
 RECURSIVE AddMembers(_, _, _)
 AddMembers(g, ms, pc) == IF ms = <<>> THEN g ELSE AddMembers(GAddMember(g, Head(ms).c, Head(ms).S, pc), Tail(ms), pc)
 
+\* startRecovered (the body of finishedRecovery, also reached through
+\* finishRestore): partition.StartRecovered - a paused partition stays in
+\* recovery mode (it is replaced when it is resumed)
+Started(ss) == [s \in DOMAIN ss |->
+                  [ss[s] EXCEPT !.parts = [i \in DOMAIN @ |-> IF @[i].paused THEN @[i] ELSE [@[i] EXCEPT !.rec = FALSE]]]]
+
 \* Server.Restore: every stream and group of the snapshot is added as
 \* "recovered"; the groups are rebuilt by adding the members one by one in
-\* the order of the snapshot
-RestoreEffect ==
-  LET ss == [s \in DOMAIN snap.streams |->
+\* the order of the snapshot.  running = the server is already serving
+\* (IsRunning): nothing will be replayed, Restore ends with finishRestore.
+RestoreEffect(running) ==
+  LET s0 == [s \in DOMAIN snap.streams |->
                [tomb |-> FALSE, subj |-> snap.heads[s].subj, cfg |-> snap.heads[s].cfg, ts |-> snap.heads[s].ts,
                 parts |-> [i \in DOMAIN snap.streams[s] |-> FromProto(snap.streams[s][i], snap.heads[s].cfg)]]]
+      ss == IF running THEN Started(s0) ELSE s0
       dd == [s \in DOMAIN disk \cup DOMAIN ss |->
                IF s \in DOMAIN ss THEN WithDirs(disk, s, Len(ss[s].parts))[s] ELSE disk[s]]
   IN /\ streams' = ss /\ disk' = dd
      /\ groups' = [g \in GroupIds |-> IF g \in DOMAIN snap.groups
                      THEN AddMembers(NewGroup(snap.groups[g].coord, snap.groups[g].epoch), snap.groups[g].members, PC(ss))
                      ELSE NoGroup]
+     /\ grec' = [g \in GroupIds |-> g \in DOMAIN snap.groups /\ ~running]
      /\ applied' = snap.idx
 
 DoRestore ==
   /\ mode = "boot" /\ snap.has
-  /\ RestoreEffect
+  /\ RestoreEffect(FALSE)
   /\ mode' = "replay"
   /\ obs' = [a |-> "Restore", err |-> ""]
   /\ UNCHANGED <<lastPub, nrep, sref, snap, pre>>
@@ -304,13 +318,14 @@ DoRestore ==
 \* must discard all previous state": whatever it held, afterwards it holds the
 \* snapshot (metadata.Reset closes streams and groups; directories stay).  The
 \* entries behind the snapshot then arrive as NEW entries (recovered = FALSE:
-\* the replay range was determined at start-up) and nothing calls
-\* finishedRecovery.  Because the previous state is discarded, the step is
-\* modelled on the server's own last persisted snapshot.
+\* the replay range was determined at start-up), so nothing is replayed and
+\* Restore itself starts what it added (finishRestore, the server is running).
+\* Because the previous state is discarded, the step is modelled on the
+\* server's own last persisted snapshot.
 DoInstall ==
   /\ mode = "live" /\ snap.has /\ ~sref.has
   /\ pre' = [streams |-> streams, groups |-> groups, disk |-> disk]
-  /\ RestoreEffect
+  /\ RestoreEffect(TRUE)
   /\ mode' = "catchup"
   /\ obs' = [a |-> "Install", err |-> ""]
   /\ UNCHANGED <<lastPub, nrep, sref, snap>>
@@ -325,7 +340,7 @@ DoCaughtUp ==
   /\ mode = "catchup"
   /\ mode' = "live"
   /\ obs' = [a |-> "CaughtUp", err |-> ""]
-  /\ UNCHANGED <<streams, groups, lastPub, disk, applied, nrep, sref, snap, pre>>
+  /\ UNCHANGED <<streams, groups, grec, lastPub, disk, applied, nrep, sref, snap, pre>>
 
 Tombs == {s \in DOMAIN streams : streams[s].tomb}
 
@@ -334,25 +349,27 @@ Tombs == {s \in DOMAIN streams : streams[s].tomb}
 \* Go map: any order (ord = permutation of Tombs, per group)
 DoFinish(ord) ==
   /\ mode = "replay" /\ nrep > 0
-  /\ LET ss == [s \in DOMAIN streams \ Tombs |->
-                  \* partition.StartRecovered: a paused partition stays in recovery mode (it is
-                  \* replaced when it is resumed)
-                  [streams[s] EXCEPT !.parts = [i \in DOMAIN @ |-> IF @[i].paused THEN @[i] ELSE [@[i] EXCEPT !.rec = FALSE]]]] IN
+  /\ LET ss == Started([s \in DOMAIN streams \ Tombs |-> streams[s]]) IN
      /\ streams' = ss
      /\ disk' = [s \in DOMAIN disk \ Tombs |-> disk[s]]
      /\ groups' = [g \in GroupIds |-> IF groups[g].exists THEN GAnnounceSeq(groups[g], ord[g], applied, PC(ss)) ELSE groups[g]]
+  \* consumerGroup.StartRecovered
+  /\ grec' = [g \in GroupIds |-> FALSE]
   /\ mode' = "live"
   /\ obs' = [a |-> "Finish", err |-> ""]
   /\ UNCHANGED <<lastPub, applied, nrep, sref, snap, pre>>
 
-\* nothing was replayed (the snapshot covers the whole log): Server.Apply never
-\* calls finishedRecovery; the next committed operation is applied live and the
-\* restored partitions and groups stay in recovery mode
+\* nothing was replayed (the snapshot covers the whole log: the log store
+\* holds no command entry behind it): Server.Start ends the recovery with
+\* finishRestore once the API server is initialised (at the latest
+\* Server.Apply does before the first entry it applies as a new one): what
+\* Restore added is started; there are no tombstones, nothing is announced
 DoGoLive ==
   /\ mode = "replay" /\ nrep = 0
+  /\ streams' = Started(streams) /\ grec' = [g \in GroupIds |-> FALSE]
   /\ mode' = "live"
   /\ obs' = [a |-> "GoLive", err |-> ""]
-  /\ UNCHANGED <<streams, groups, lastPub, disk, applied, nrep, sref, snap, pre>>
+  /\ UNCHANGED <<groups, lastPub, disk, applied, nrep, sref, snap, pre>>
 
 -----------------------------------------------------------------------------
 (* What C06 demands.  Evaluated on the step that returns to live operation  *)
@@ -363,9 +380,12 @@ Meta(p) == [replicas |-> p.replicas, isr |-> p.isr, leader |-> p.leader, lepoch 
 MetaOf(ss) == [s \in DOMAIN ss |-> [tomb |-> ss[s].tomb, subj |-> ss[s].subj, cfg |-> ss[s].cfg, ts |-> ss[s].ts, parts |-> [i \in DOMAIN ss[s].parts |-> Meta(ss[s].parts[i])]]]
 \* after recovery every partition that is not paused has been started
 RS_Started == (mode' = "live" /\ mode \in {"replay", "catchup"}) =>
-   \A s \in DOMAIN streams' : \A i \in DOMAIN streams'[s].parts : streams'[s].parts[i].paused \/ ~streams'[s].parts[i].rec
-\* ... which finishedRecovery does whenever it is called
-RS_StartedByFinish == (nrep > 0 /\ mode = "replay") => RS_Started
+   /\ \A s \in DOMAIN streams' : \A i \in DOMAIN streams'[s].parts : streams'[s].parts[i].paused \/ ~streams'[s].parts[i].rec
+   /\ \A g \in GroupIds : ~grec'[g]
+\* ... and a server that serves never holds a partition that waits for the end of a recovery
+NoRecLive == mode \in {"live", "catchup"} =>
+   /\ \A s \in DOMAIN streams : \A i \in DOMAIN streams[s].parts : streams[s].parts[i].paused \/ ~streams[s].parts[i].rec
+   /\ \A g \in GroupIds : ~grec[g]
 RoEffOf(ss) == [s \in DOMAIN ss |-> [i \in DOMAIN ss[s].parts |-> ss[s].parts[i].roeff]]
 
 BackLive == mode' = "live" /\ mode \in {"replay", "catchup"}
